@@ -259,7 +259,10 @@ def run_check(args):
 
     for d_ in cross["disagree"]:
         print(f"CHECKER-ERROR property={prop} z3 discharged {d_} but cvc5 finds the negation satisfiable (back ends disagree)")
-    if crashes or vacuous or cross["disagree"]:
+    n_reproduced = sum(1 for v in violations if v and v["status"] == "reproduced") + sum(1 for b in bounded if b["failed"])
+    if n_reproduced:
+        rc = 1  # a failing input replayed on the real code stands, whatever else went wrong in the run
+    elif crashes or vacuous or cross["disagree"]:
         rc = 3
     elif n_viol:
         rc = 1
